@@ -355,8 +355,14 @@ func (s *State) EvalOptions(parsed *hclparse.Parser, v any, opts *EvalOptions) e
 	if ctx.Variables == nil {
 		ctx.Variables = make(map[string]cty.Value)
 	}
-	for name, file := range files {
+	// Files are evaluated in the order of their names, and not in the (random) order
+	// of the map, as references between files (e.g. locals) depend on this order.
+	for name := range files {
 		fileNames = append(fileNames, name)
+	}
+	sort.Strings(fileNames)
+	for _, name := range fileNames {
+		file := files[name]
 		if err := s.setInputVals(ctx, file.Body, opts.Variables); err != nil {
 			return err
 		}
